@@ -22,8 +22,9 @@ pub const EXTRA_LEN: usize = 8;
 pub struct Profile {
     pub name: &'static str,
     /// weights: provide, withdraw, swap (native entry), swap (cw20 hook), donate asset, donate LP,
-    /// router route, change allowance, forged/internal garbage
-    pub w: [u32; 9],
+    /// router route, change allowance, forged/internal garbage, owner administration (decimals
+    /// re-registration, config update, pair migration)
+    pub w: [u32; 10],
     /// probability (x/16) that a swap/provide message gets an adversarial shape
     pub adversarial_16: u64,
     /// probability (x/16) that attached funds are played with (less/more/absent/extra)
@@ -39,13 +40,13 @@ pub struct Profile {
     pub special: Option<fn(&World, &mut Src, &Profile, &mut GenState, usize) -> Option<Step>>,
 }
 
-pub const MIXED: Profile = Profile { name: "mixed", w: [10, 6, 10, 8, 3, 1, 4, 1, 1], adversarial_16: 2, extra_ask_16: 1, funds_games_16: 1, max_pairs: 3, connected: false, hostile: false, special: None };
-pub const SWAPPY: Profile = Profile { name: "swappy", w: [6, 2, 14, 12, 2, 0, 4, 0, 0], adversarial_16: 1, extra_ask_16: 2, funds_games_16: 0, max_pairs: 3, connected: false, hostile: false, special: None };
-pub const SETTLE: Profile = Profile { name: "settlement", w: [6, 2, 12, 14, 2, 1, 2, 0, 0], adversarial_16: 9, extra_ask_16: 1, funds_games_16: 5, max_pairs: 3, connected: false, hostile: false, special: None };
-pub const FUNDS: Profile = Profile { name: "funds", w: [12, 1, 14, 6, 1, 0, 0, 0, 0], adversarial_16: 3, extra_ask_16: 1, funds_games_16: 11, max_pairs: 2, connected: false, hostile: false, special: None };
-pub const LIQUIDITY: Profile = Profile { name: "liquidity", w: [12, 12, 6, 5, 4, 2, 1, 1, 0], adversarial_16: 1, extra_ask_16: 1, funds_games_16: 0, max_pairs: 2, connected: false, hostile: false, special: None };
-pub const HOSTILE: Profile = Profile { name: "hostile", w: [8, 3, 10, 8, 8, 2, 2, 0, 0], adversarial_16: 0, extra_ask_16: 2, funds_games_16: 0, max_pairs: 2, connected: false, hostile: true, special: None };
-pub const ROUTES: Profile = Profile { name: "routes", w: [8, 2, 5, 4, 1, 0, 12, 0, 0], adversarial_16: 0, extra_ask_16: 1, funds_games_16: 0, max_pairs: 5, connected: true, hostile: false, special: None };
+pub const MIXED: Profile = Profile { name: "mixed", w: [10, 6, 10, 8, 3, 1, 4, 1, 1, 1], adversarial_16: 2, extra_ask_16: 1, funds_games_16: 1, max_pairs: 3, connected: false, hostile: false, special: None };
+pub const SWAPPY: Profile = Profile { name: "swappy", w: [6, 2, 14, 12, 2, 0, 4, 0, 0, 1], adversarial_16: 1, extra_ask_16: 2, funds_games_16: 0, max_pairs: 3, connected: false, hostile: false, special: None };
+pub const SETTLE: Profile = Profile { name: "settlement", w: [6, 2, 12, 14, 2, 1, 2, 0, 0, 0], adversarial_16: 9, extra_ask_16: 1, funds_games_16: 5, max_pairs: 3, connected: false, hostile: false, special: None };
+pub const FUNDS: Profile = Profile { name: "funds", w: [12, 1, 14, 6, 1, 0, 0, 0, 0, 0], adversarial_16: 3, extra_ask_16: 1, funds_games_16: 11, max_pairs: 2, connected: false, hostile: false, special: None };
+pub const LIQUIDITY: Profile = Profile { name: "liquidity", w: [12, 12, 6, 5, 4, 2, 1, 1, 0, 1], adversarial_16: 1, extra_ask_16: 1, funds_games_16: 0, max_pairs: 2, connected: false, hostile: false, special: None };
+pub const HOSTILE: Profile = Profile { name: "hostile", w: [8, 3, 10, 8, 8, 2, 2, 0, 0, 1], adversarial_16: 0, extra_ask_16: 2, funds_games_16: 0, max_pairs: 2, connected: false, hostile: true, special: None };
+pub const ROUTES: Profile = Profile { name: "routes", w: [8, 2, 5, 4, 1, 0, 12, 0, 0, 0], adversarial_16: 0, extra_ask_16: 1, funds_games_16: 0, max_pairs: 5, connected: true, hostile: false, special: None };
 
 const COMMISSIONS: [Option<u128>; 8] = [None, Some(0), Some(1), Some(30_000_000_000_000_000), Some(E18 / 2), Some(E18 - 1), Some(E18), Some(3_000_000_000_000_000)];
 
@@ -590,7 +591,19 @@ pub struct GenState {
     pub step_no: usize,
 }
 
-pub const KIND_NAMES: [&str; 9] = ["op:provide", "op:withdraw", "op:swap-exec", "op:swap-hook", "op:donate", "op:donate-lp", "op:route", "op:allowance", "op:forged"];
+/// owner administration interleaved with trading: re-registration of a native denom's decimals (the
+/// factory then pushes an update to every pair trading it), a configuration update, a pair migration
+pub fn gen_admin(w: &World, s: &mut Src, _prof: &Profile) -> Step {
+    let owner = w.owner.to_string();
+    let msg = match s.weighted(&[7, 1, 2]) {
+        0 => haloswap::factory::ExecuteMsg::AddNativeTokenDecimals { denom: w.natives[s.idx(w.natives.len())].clone(), decimals: s.below(19) as u8 },
+        1 => haloswap::factory::ExecuteMsg::UpdateConfig { owner: None, token_code_id: Some(w.codes.cw20), pair_code_id: Some(w.codes.pair) },
+        _ => haloswap::factory::ExecuteMsg::MigratePair { contract: w.pairs[s.idx(w.pairs.len())].addr.to_string(), code_id: if s.bool() { Some(w.codes.pair) } else { None } },
+    };
+    Step { sender: owner, call: Call::Factory { msg }, funds: vec![] }
+}
+
+pub const KIND_NAMES: [&str; 10] = ["op:provide", "op:withdraw", "op:swap-exec", "op:swap-hook", "op:donate", "op:donate-lp", "op:route", "op:allowance", "op:forged", "op:admin"];
 
 pub fn gen_step(w: &World, s: &mut Src, prof: &Profile, gs: &mut GenState) -> (Step, usize) {
     let mut kind = s.weighted(&prof.w);
@@ -613,7 +626,8 @@ pub fn gen_step(w: &World, s: &mut Src, prof: &Profile, gs: &mut GenState) -> (S
         5 => gen_donate_lp(w, s, prof),
         6 => gen_route(w, s, prof),
         7 => gen_allowance(w, s, prof),
-        _ => gen_forged(w, s, prof),
+        8 => gen_forged(w, s, prof),
+        _ => gen_admin(w, s, prof),
     };
     (st, kind)
 }
@@ -779,9 +793,9 @@ pub fn special_slippage(w: &World, s: &mut Src, _prof: &Profile, gs: &mut GenSta
     None
 }
 
-pub const GUARDED: Profile = Profile { name: "guarded", w: [5, 2, 16, 14, 2, 0, 3, 0, 0], adversarial_16: 0, extra_ask_16: 0, funds_games_16: 0, max_pairs: 3, connected: false, hostile: false, special: Some(special_guarded) };
-pub const SLIPPAGE: Profile = Profile { name: "slippage", w: [16, 3, 10, 8, 3, 0, 2, 0, 0], adversarial_16: 0, extra_ask_16: 1, funds_games_16: 0, max_pairs: 2, connected: false, hostile: false, special: Some(special_slippage) };
-pub const QUOTES: Profile = Profile { name: "quotes", w: [6, 3, 14, 12, 3, 0, 4, 0, 0], adversarial_16: 0, extra_ask_16: 0, funds_games_16: 0, max_pairs: 3, connected: false, hostile: false, special: None };
+pub const GUARDED: Profile = Profile { name: "guarded", w: [5, 2, 16, 14, 2, 0, 3, 0, 0, 1], adversarial_16: 0, extra_ask_16: 0, funds_games_16: 0, max_pairs: 3, connected: false, hostile: false, special: Some(special_guarded) };
+pub const SLIPPAGE: Profile = Profile { name: "slippage", w: [16, 3, 10, 8, 3, 0, 2, 0, 0, 1], adversarial_16: 0, extra_ask_16: 1, funds_games_16: 0, max_pairs: 2, connected: false, hostile: false, special: Some(special_slippage) };
+pub const QUOTES: Profile = Profile { name: "quotes", w: [6, 3, 14, 12, 3, 0, 4, 0, 0, 1], adversarial_16: 0, extra_ask_16: 0, funds_games_16: 0, max_pairs: 3, connected: false, hostile: false, special: None };
 
 // ------------------------------------------------------------------------------------------------
 // router-centred generation (C11, C13)
@@ -888,4 +902,4 @@ pub fn special_routes(w: &World, s: &mut Src, prof: &Profile, gs: &mut GenState,
     Some(route_step(w, &actor, &hops, amt, minimum, to))
 }
 
-pub const ROUTER: Profile = Profile { name: "router", w: [7, 2, 5, 4, 2, 0, 14, 0, 0], adversarial_16: 0, extra_ask_16: 0, funds_games_16: 0, max_pairs: 5, connected: true, hostile: false, special: Some(special_routes) };
+pub const ROUTER: Profile = Profile { name: "router", w: [7, 2, 5, 4, 2, 0, 14, 0, 0, 0], adversarial_16: 0, extra_ask_16: 0, funds_games_16: 0, max_pairs: 5, connected: true, hostile: false, special: Some(special_routes) };
